@@ -239,6 +239,29 @@ pub fn connect(server: &mut NetcodeServer, client: &mut NetcodeClient, caddr: So
     Ok(false)
 }
 
+/// handshake over a lossy path: the server's answer to the first response is held back, the client repeats its
+/// response, whatever the server answers to the repetition is delivered, then the held-back answer arrives late
+pub fn connect_lossy(server: &mut NetcodeServer, client: &mut NetcodeClient, caddr: SocketAddr) -> Result<bool, Violation> {
+    let dt = Duration::from_millis(250);
+    let Some((req, _)) = cli_update(client, dt)? else { return Ok(false) };
+    let r = srv_process(server, caddr, &req)?;
+    let Some((_, chal)) = r.reply() else { return Ok(false) };
+    cli_process(client, chal)?;
+    let Some((resp, _)) = cli_update(client, dt)? else { return Ok(false) };
+    let first = srv_process(server, caddr, &resp)?;
+    let held: Option<Vec<u8>> = first.reply().map(|(_, b)| b.to_vec());
+    if let Some((resp2, _)) = cli_update(client, dt)? {
+        let second = srv_process(server, caddr, &resp2)?;
+        if let Some((_, b)) = second.reply() {
+            cli_process(client, b)?;
+        }
+    }
+    if let Some(b) = held {
+        cli_process(client, &b)?;
+    }
+    Ok(client.is_connected() && server.is_client_connected(client.client_id()))
+}
+
 /// attacker-side sealing with the crate's own encoder
 pub fn seal(p: &Packet, protocol: u64, seq: u64, key: &[u8; 32]) -> Vec<u8> {
     let mut buf = [0u8; 1500];
